@@ -7,6 +7,22 @@ POOL0 = 100          # tuple element objects live in slots POOL0 .. POOL0+NPOOL-
 NPOOL = 120
 
 
+# element types: Int and String are 8 bytes wide, Blob is a 16-byte and Tri a 3-byte plain struct (default byte-wise
+# assign / cmp), Probe (C05) a 24-byte type with constructor and destructor
+_BLOBS = ["00" * 16, "01" + "00" * 15, "00" * 15 + "01", "ff" * 16, "00" * 8 + "ff" * 8, "0102030405060708090a0b0c0d0e0f10", "7f" + "00" * 14 + "80"]
+_TRIS = ["000000", "000001", "010000", "ffffff", "00ff00", "616263", "7f0080"]
+ZERO = {"Int": "i:0", "Blob": "b:" + "00" * 16, "Tri": "c:000000"}            # what a zero-filled element reads as
+SENT1 = {"Int": "i:9", "String": "s:39", "Probe": "p:9", "Blob": "b:" + "39" * 16, "Tri": "c:393939"}
+SENT2 = {"Int": "i:77", "String": "s:7777", "Probe": "p:77", "Blob": "b:" + "77" * 16, "Tri": "c:777777"}
+UNIVERSE = {
+    "Int": ["i:%d" % v for v in (-3, -2, -1, 0, 1, 2, 3, 2**31, -2**63, 2**63 - 1, 1000, 12345)],
+    "String": ["s:" + b.hex() for b in (b"", b"a", b"b", b"ab", b"abc", b"\x80", b"zz", b"a b", b"zzz")],
+    "Probe": ["p:%d" % v for v in (0, 1, 2, 3, 4, 5, 6, 99)],
+    "Blob": ["b:" + h for h in _BLOBS] + ["b:" + "42" * 16],
+    "Tri": ["c:" + h for h in _TRIS] + ["c:424242"],
+}
+
+
 def elem_values(et):
     if et == "Int":
         return st.one_of(st.integers(-3, 3), st.integers(-3, 3), st.sampled_from([2**31, -2**63, 2**63 - 1, 1000])).map(lambda v: "i:%d" % v)
@@ -14,6 +30,10 @@ def elem_values(et):
         return st.sampled_from([b"", b"a", b"b", b"ab", b"abc", b"\x80", b"zz", b"a b"]).map(lambda b: "s:" + b.hex())
     if et == "Probe":
         return st.integers(0, 6).map(lambda v: "p:%d" % v)
+    if et == "Blob":
+        return st.sampled_from(_BLOBS).map(lambda h: "b:" + h)
+    if et == "Tri":
+        return st.sampled_from(_TRIS).map(lambda h: "c:" + h)
     raise HarnessBug(et)
 
 
@@ -24,8 +44,12 @@ def val_order(lit):
 
 
 @st.composite
-def seq_case(draw, kinds=("Array", "List", "Tuple"), ets=("Int", "String"), max_ops=60):
+def seq_case(draw, kinds=("Array", "List", "Tuple"), ets=("Int", "String"), max_ops=60, ext=False):
+    """ext=True (C04, C11) adds: element types Blob (16 bytes) and Tri (3 bytes), a constructor with initial elements,
+    plain sort, push_at with i == len (also on an empty container), large concat / assign sources, assign from a Range"""
     kind = draw(st.sampled_from(kinds))
+    if ext and tuple(ets) == ("Int", "String"):
+        ets = ("Int", "String", "Int", "String", "Blob", "Tri")
     et = draw(st.sampled_from(ets))
     vals = elem_values(et)
     ops = []
@@ -34,6 +58,10 @@ def seq_case(draw, kinds=("Array", "List", "Tuple"), ets=("Int", "String"), max_
     idx = st.tuples(pm, st.booleans())          # (position permille, negative form)
     choices = ["push", "push", "push", "pop", "push_at", "push_at_neg", "pop_at", "set", "get", "rem", "mem", "concat", "append",
                "resize", "sort", "assign", "copy", "pushn", "popn"]
+    init = None
+    if ext:
+        choices = choices + ["sort0", "push_at_end", "push_at_end", "concatn", "assignn", "assign_range", "assign_filter"]
+        init = draw(st.one_of(st.none(), st.lists(vals, max_size=9)))
     for _ in range(n):
         o = draw(st.sampled_from(choices))
         if o in ("push", "append", "rem", "mem"):
@@ -61,11 +89,26 @@ def seq_case(draw, kinds=("Array", "List", "Tuple"), ets=("Int", "String"), max_
             ops.append([o, draw(st.sampled_from([3, 8, 20, 50, 120])), draw(st.lists(vals, min_size=1, max_size=4))])
         elif o == "popn":
             ops.append([o, draw(st.sampled_from([3, 8, 20, 50, 120]))])
-    return {"kind": kind, "et": et, "ops": ops}
+        elif o == "sort0":
+            ops.append([o])
+        elif o == "push_at_end":
+            ops.append([o, draw(vals)])
+        elif o in ("concatn", "assignn"):
+            ops.append([o, draw(st.sampled_from(["Array", "List", "Tuple"])), draw(st.sampled_from([9, 17, 40, 90, 150])),
+                        draw(st.lists(vals, min_size=1, max_size=4))])
+        elif o == "assign_filter":
+            ops.append([o, draw(st.lists(st.integers(-4, 9).map(lambda v: "i:%d" % v), max_size=8)), draw(st.sampled_from(["even", "all"]))])
+        elif o == "assign_range":
+            ops.append([o, draw(st.integers(-5, 5)), draw(st.sampled_from([0, 1, 2, 7, 30])), draw(st.integers(1, 3)),
+                        draw(st.sampled_from(["heap", "stack"]))])
+    case = {"kind": kind, "et": et, "ops": ops}
+    if init is not None:
+        case["init"] = init
+    return case
 
 
 class SeqRun:
-    def __init__(self, case, slot=0, prog=None, check_every=True):
+    def __init__(self, case, slot=0, prog=None, check_every=True, check_mem=False):
         self.case = case
         self.kind, self.et = case["kind"], case["et"]
         self.P = prog or Prog()
@@ -76,17 +119,22 @@ class SeqRun:
         self.pool_next = 0
         self.events = set()
         self.flags = {"grow": 0, "shrink": 0, "neg_ops": set(), "sort_dups": False, "last_cap": None, "maxlen": 0}
-        self.check_every = check_every
+        self.check_every = check_every        # False: no model comparison after each op (the caller compares at the end)
+        self.check_mem = check_mem            # True: mem() of every value of the element universe after each op
 
     @property
     def c(self):
         return "%%%d" % self.cur
 
     def start(self):
+        init = list(self.case.get("init") or [])
         if self.kind == "Tuple":
-            self.P.add("new %s heap t:Tuple" % self.c)
+            self.P.add("new %s heap t:Tuple %s" % (self.c, " ".join(self.pool_obj(v) for v in init)))
         else:
-            self.P.add("new %s heap t:%s t:%s" % (self.c, self.kind, self.et))
+            self.P.add("new %s heap t:%s t:%s %s" % (self.c, self.kind, self.et, " ".join(init)))
+        self.model[:] = init
+        if init:
+            self.events.add("constructed-with-elements")
         self.check()
 
     def pool_obj(self, lit):
@@ -106,14 +154,20 @@ class SeqRun:
     def room(self, k=1):
         return self.kind != "Tuple" or self.pool_next + k <= NPOOL
 
-    def check(self):
+    def check(self, force=False):
         P, model = self.P, list(self.model)
         self.flags["maxlen"] = max(self.flags["maxlen"], len(model))
+        if not (self.check_every or force):
+            return
         P.add("len %s" % self.c, expect_ok(str(len(model))))
         tag = {"Array": "A", "List": "L", "Tuple": "U"}[self.kind]
         P.add("repr %s" % self.c, expect_ok("%s[%s]" % (tag, ",".join(lit_repr(v) for v in model))))
         if len(model) <= 40:
             P.add("gets %s" % self.c, expect_ok(",".join(lit_repr(v) for v in model + model)))
+        if self.check_mem:
+            uni = UNIVERSE[self.et]
+            have = set(model)
+            P.add("mems %s %s" % (self.c, " ".join(uni)), expect_ok("".join("1" if u in have else "0" for u in uni)))
         if self.kind == "Array":
             fl = self.flags
 
@@ -262,7 +316,7 @@ class SeqRun:
             P.add("assign %s %s" % (self.c, other), lambda ob: None if ob.startswith("ok") else "assign failed: " + ob)
             m[:] = list(op[2])
             if self.kind != "Tuple":
-                P.add("push %%%d %s" % (self.aux, op[2][0] if op[2] else {"Int": "i:9", "String": "s:39", "Probe": "p:9"}[self.et]))
+                P.add("push %%%d %s" % (self.aux, op[2][0] if op[2] else SENT1[self.et]))
                 P.add("del %%%d" % self.aux)
             self.flags["last_cap"] = None
             self.events.add("assign-" + op[1])
@@ -287,9 +341,9 @@ class SeqRun:
                 k = n + 1 + op[2] % 40
                 if self.kind == "Array":
                     P.add("resize %s %d" % (self.c, k))
-                elif self.kind == "List" and self.et == "Int":
+                elif self.kind == "List" and self.et in ZERO:
                     P.add("resize %s %d" % (self.c, k))
-                    m.extend(["i:0"] * (k - n))
+                    m.extend([ZERO[self.et]] * (k - n))
                 else:
                     return
             self.events.add("resize-" + how)
@@ -304,11 +358,123 @@ class SeqRun:
         elif o == "copy":
             P.add("copy %%%d %s" % (self.alt, self.c), lambda ob: None if ob.startswith("ok") else "copy failed: " + ob)
             if self.room():
-                P.add("push %s %s" % (self.c, self.elem_arg({"Int": "i:77", "String": "s:7777", "Probe": "p:77"}[self.et])))
+                P.add("push %s %s" % (self.c, self.elem_arg(SENT2[self.et])))
             P.add("del %s" % self.c)
             self.cur, self.alt = self.alt, self.cur
             self.flags["last_cap"] = None
             self.events.add("copy")
+        elif o == "sort0":
+            # the plain entry point: sort(x) == sort_by(x, lt)
+            if self.kind == "List":
+                return
+            P.add("sort %s" % self.c)
+            if len(set(m)) < len(m):
+                self.flags["sort_dups"] = True
+            m.sort(key=val_order)
+            self.events.add("sort-plain")
+        elif o == "push_at_end":
+            # i == len (also on an empty container): Array appends, List accepts it only when empty, Tuple rejects it
+            # (DESIGN.md Appendix A) - either "IndexOutOfBoundsError and unchanged" or "appended" is accepted, nothing
+            # else; afterwards the container is brought back to the old contents (push one more, truncate to n).
+            if not self.room(2):
+                return
+            v = op[1]
+            tag = {"Array": "A", "List": "L", "Tuple": "U"}[self.kind]
+            ra = "ok %s[%s]" % (tag, ",".join(lit_repr(x) for x in m + [v]))
+            rb = "ok %s[%s]" % (tag, ",".join(lit_repr(x) for x in m))
+            seen = {}
+
+            def c1(ob, seen=seen):
+                if ob == "ok" or ob.startswith("ok "):
+                    seen["acc"] = True
+                    return None
+                if ob == "exc IndexOutOfBoundsError":
+                    seen["acc"] = False
+                    return None
+                return "push_at with i == len: expected ok or IndexOutOfBoundsError, got '%s'" % ob
+
+            def c2(ob, seen=seen, ra=ra, rb=rb):
+                want = ra if seen.get("acc") else rb
+                return None if ob == want else "after push_at with i == len (%s): %s, expected %s" % (
+                    "accepted" if seen.get("acc") else "rejected", ob, want)
+            sa = "ok %s[%s]" % (tag, ",".join(lit_repr(x) for x in m + [v, SENT2[self.et]]))
+            sb = "ok %s[%s]" % (tag, ",".join(lit_repr(x) for x in m + [SENT2[self.et]]))
+
+            def c3(ob, seen=seen, sa=sa, sb=sb):
+                want = sa if seen.get("acc") else sb
+                return None if ob == want else "push after push_at with i == len (%s): %s, expected %s" % (
+                    "accepted" if seen.get("acc") else "rejected", ob, want)
+
+            def c4(ob, seen=seen, n=n):
+                want = "ok %d" % (n + 2 if seen.get("acc") else n + 1)
+                return None if ob == want else "len after push_at with i == len and a push: %s, expected %s" % (ob, want)
+            P.add("push_at %s %s i:%d" % (self.c, self.elem_arg(v), n), c1)
+            P.add("repr %s" % self.c, c2)
+            P.add("push %s %s" % (self.c, self.elem_arg(SENT2[self.et])))      # the next operation must see a consistent container
+            P.add("repr %s" % self.c, c3)
+            P.add("len %s" % self.c, c4)
+            P.add("resize %s %d" % (self.c, n))
+            self.flags["last_cap"] = None
+            self.events.add("push_at-len" + ("-empty" if n == 0 else ""))
+        elif o in ("concatn", "assignn"):
+            # large sources: the target's capacity jumps by many elements at once
+            k2, cnt, vs = op[1], op[2], op[3]
+            if self.kind == "Tuple":
+                cnt = min(cnt, 40)
+            if o == "assignn" and self.kind != "Tuple" and k2 == "Tuple":
+                k2 = "Array"          # see "assign": a Tuple source re-types the target
+            items = [vs[j % len(vs)] for j in range(cnt)]
+            other = self.build_other(k2, items, self.aux)
+            if other is None:
+                return
+            if o == "concatn":
+                P.add("concat %s %s" % (self.c, other))
+                m.extend(items)
+            else:
+                P.add("assign %s %s" % (self.c, other), lambda ob: None if ob.startswith("ok") else "assign failed: " + ob)
+                m[:] = items
+                self.flags["last_cap"] = None
+            if self.kind != "Tuple":
+                P.add("del %%%d" % self.aux)
+            self.events.add("%s-large-%s" % (o[:-1], k2))
+        elif o == "assign_range":
+            # assign(array | list, range(...)): the element type becomes Int (iter_type of Range), every item is a copy
+            # of the Range's single value object (tests/test.c: test_array_assign, test_list_assign)
+            if self.kind == "Tuple" or self.et != "Int":
+                return
+            a, cnt, step, alloc = op[1], op[2], op[3], op[4]
+            b = a + cnt * step - ((a + cnt) % step if cnt else 0)      # cnt items; the span is not always divisible by the step
+            if alloc == "heap":
+                P.add("new %%%d heap t:Range i:%d i:%d i:%d" % (self.aux, a, b, step))
+            else:
+                P.add("stk %%%d range i:%d i:%d i:%d" % (self.aux, a, b, step))
+            P.add("assign %s %%%d" % (self.c, self.aux), lambda ob: None if ob.startswith("ok") else "assign failed: " + ob)
+            m[:] = ["i:%d" % v for v in range(a, b, step)]
+            if alloc == "heap":
+                P.add("del %%%d" % self.aux)
+            self.flags["last_cap"] = None
+            self.events.add("assign-Range")
+        elif o == "assign_filter":
+            # assign from an iterable that has neither Len nor Get (a Filter): the old contents are replaced
+            # (Array, Tuple; List needs Len and raises ClassError - C12's subject, not generated here)
+            if self.et != "Int" or self.kind == "List":
+                return
+            items, fn = op[1], op[2]
+            P.add("new %%%d heap t:Array t:Int %s" % (self.aux, " ".join(items)))
+            P.add("new %%%d heap t:Filter %%%d fn:%s" % (self.aux + 1, self.aux, fn))
+            P.add("assign %s %%%d" % (self.c, self.aux + 1), lambda ob: None if ob.startswith("ok") else "assign failed: " + ob)
+            m[:] = [v for v in items if fn == "all" or (fn == "even" and int(v[2:]) % 2 == 0)]
+            self.events.add("assign-Filter")
+            self.flags["last_cap"] = None
+            if self.kind == "Tuple":
+                # the Tuple now points at elements embedded in the source Array: look at it while that Array is alive,
+                # then empty it before the source goes away
+                self.check()
+                if m:
+                    P.add("resize %s 0" % self.c)
+                    m[:] = []
+            P.add("del %%%d" % (self.aux + 1))
+            P.add("del %%%d" % self.aux)
         else:
             raise HarnessBug("op " + o)
         self.check()
